@@ -318,7 +318,7 @@ func init() {
 			"distinct = (operation, year class[, format]) cells",
 		NumCases: func(tier string) int {
 			if tier == "thorough" {
-				return 2_000_000
+				return 500_000
 			}
 			return 60_000
 		},
